@@ -43,7 +43,7 @@ func hashRun(r *Run) string {
 // Exit 0 = all identical, 2 = a divergence (a simulator bug, never a VIOLATION).
 func SelfTest(props map[string]Property, ids []string, opt Options, perProp int) int {
 	t0 := time.Now()
-	env, err := BuildWorlds(opt.VerifDir, opt.RepoDir, false, false, nil)
+	env, err := BuildWorlds(opt.VerifDir, opt.RepoDir, false, true, nil)
 	defer env.Cleanup()
 	if err != nil {
 		logf("BUILD-TROUBLE: %v", err)
